@@ -672,6 +672,7 @@ var shapesDiamond4 = [][][]int{
 }
 
 func enumerate(tier string, emit func(string)) {
+	enumNilarg(emit)
 	thorough := tier == engine.Thorough
 	// family P: no redefinition, every permutation of the defclass forms
 	emitP(emit, 1, 0, alphaFull)
